@@ -145,6 +145,53 @@ func c09PerIterationFresh(c *Ctx, ge *GuardEngine) {
 		}
 	}
 	c.Check(n >= 2, "copy-is-deep", "per-iteration:inventory", "", fmt.Sprintf("%d pointer-to-local stores inside copy loops examined", n))
+	// a loop that re-points the elements of a copy at fresh memory detaches EVERY element only if it cannot be left
+	// from inside its body (a break after the first element of another kind leaves the rest shared with the original).
+	// Any function of package types, whatever its name.
+	m := 0
+	for _, fn := range SortedFuncs(c.P.AllFuncs()) {
+		if !c.P.InModule(fn) || fn.Synthetic != "" || fn.Pkg == nil || relPkg(fn.Pkg.Pkg) != "types" || len(fn.Blocks) == 0 {
+			continue
+		}
+		fi := ge.info(fn)
+		done := map[*ssa.BasicBlock]bool{}
+		k := 0
+		for _, b := range fn.Blocks {
+			for _, in := range b.Instrs {
+				var al *ssa.Alloc
+				switch x := in.(type) {
+				case *ssa.MakeInterface:
+					al, _ = x.X.(*ssa.Alloc)
+				case *ssa.Store:
+					al, _ = x.Val.(*ssa.Alloc)
+					if _, intoElem := x.Addr.(*ssa.FieldAddr); !intoElem {
+						if _, intoIdx := x.Addr.(*ssa.IndexAddr); !intoIdx {
+							al = nil
+						}
+					}
+				}
+				if al == nil || !al.Heap || len(fi.loopsOf[b]) == 0 {
+					continue
+				}
+				// innermost loop
+				h := fi.loopsOf[b][0]
+				for _, x := range fi.loopsOf[b] {
+					if len(fi.loopBody[x]) < len(fi.loopBody[h]) {
+						h = x
+					}
+				}
+				if done[h] || !fi.loopBody[h][al.Block()] {
+					continue
+				}
+				done[h] = true
+				m++
+				k++
+				why := ge.earlyAcceptingExit(fi, h, nil)
+				c.Check(why == "", "copy-is-deep", fmt.Sprintf("%s:loop-complete#%d", FuncName(fn), k), c.P.Pos(al.Pos()), ifElse(why == "", "the re-pointing loop visits every element", why+": the elements after that point keep pointing into the original"))
+			}
+		}
+	}
+	c.Check(m >= 1, "copy-is-deep", "loop-complete:inventory", "", fmt.Sprintf("%d re-pointing loops examined", m))
 }
 
 // decodedSharedOK: decoders that by design store a sub-slice of memory they do not own.
